@@ -535,3 +535,67 @@ Theorem pull_chain_no_new_errors (c : list (nat * adapter)) (id : nat) (f : Z ->
 Proof.
   intros [q Hq]. rewrite callback_time_main. simpl. rewrite Hq. simpl. eexists; reflexivity.
 Qed.
+
+(* ------------------------------------------------------------------------- *)
+(** * Links with state-dependent delay adapters (DelayToPull) *)
+
+(** on links without DelayToPull the stateful evaluator is the stateless one: the theorems about
+    [pull_chain] apply to the evaluator used by the network model *)
+Lemma pull_chain_st_plain {St : Type} (src : St -> Z -> St * res Q) (note : nat -> Z -> St -> St)
+      (hist : nat -> St -> list Z) (set_hist : nat -> list Z -> St -> St) (c : list (nat * adapter)) :
+  forall s t, pull_chain_st src note hist set_hist (plain_chain c) s t = pull_chain src note c s t.
+Proof.
+  induction c as [|[id a] r IH]; intros s t; simpl; [reflexivity|]. rewrite IH. reflexivity.
+Qed.
+
+(** A memo hit of the WeightedSum does not touch its environment at all - whatever the inputs are
+    (stateful adapters included): a repeated request for the same time pulls nothing, so it cannot
+    advance the pull history of a DelayToPull adapter in front of an input. *)
+Lemma ws_get_hit_any {St : Type} (pull : St -> nat -> Z -> St * res Q) (units : list Q)
+      (w : wstate) (s : St) (t : Z) :
+  all_some (ws_fetched w) <> None -> ws_last w = Some t ->
+  ws_get pull units w s t = (w, s, Ok (ws_out w)).
+Proof.
+  intros Hf Hl. unfold ws_get. destruct (all_some (ws_fetched w)); [|contradiction].
+  rewrite Hl. simpl. rewrite Z.eqb_refl. reflexivity.
+Qed.
+
+(** one pull of every input per maximal run of equal request times: the number of pulls the
+    memoised component makes for a request sequence (validated, all pulls succeeding) *)
+Fixpoint distinct_runs (last : option Z) (ts : list Z) : nat :=
+  match ts with
+  | [] => O
+  | t :: r => if optZ_eqb last (Some t) then distinct_runs last r else S (distinct_runs (Some t) r)
+  end.
+
+Lemma ws_run_pull_count (units : list Q) (src : nat -> Z -> res Q) (ts : list Z) :
+  (forall i t, exists q, src i t = Ok q) ->
+  forall (w : wstate) (log : list (nat * Z)),
+    ws_valid w = true -> all_some (ws_fetched w) <> None ->
+    length (snd (ws_run (logging_pull src) units w log ts))
+    = (length log + distinct_runs (ws_last w) ts * length (ws_fetched w))%nat.
+Proof.
+  intros Hok. induction ts as [|t r IH]; intros w log Hv Hf; simpl; [lia|].
+  destruct (optZ_eqb (ws_last w) (Some t)) eqn:El.
+  - apply optZ_eqb_true in El. rewrite (ws_get_hit_any _ units w log t Hf El).
+    specialize (IH w log Hv Hf). destruct (ws_run (logging_pull src) units w log r) as [xs s'']. simpl in *. exact IH.
+  - unfold ws_get. destruct (all_some (ws_fetched w)) as [ind|] eqn:Ei; [|contradiction].
+    rewrite El, Hv.
+    assert (Hall : exists l, snd (pull_all (logging_pull src) (length (ws_fetched w)) 0 log t) = Ok l
+                             /\ length l = length (ws_fetched w)).
+    { pose proof (pull_all_answers (logging_pull src) src (fun _ _ _ => eq_refl) (length (ws_fetched w)) 0 log t) as Ha.
+      destruct (collect_ok (map (fun j => src j t) (seq 0 (length (ws_fetched w))))) as [y Hy].
+      - intros x Hx. apply in_map_iff in Hx. destruct Hx as (j & <- & _). apply Hok.
+      - exists y. split; [rewrite Ha; exact Hy|].
+        apply collect_length in Hy. rewrite map_length, seq_length in Hy. exact Hy. }
+    destruct Hall as (l & Hl & Hlen).
+    pose proof (pull_all_log src (length (ws_fetched w)) 0 log t l Hl) as Hlog.
+    destruct (pull_all (logging_pull src) (length (ws_fetched w)) 0 log t) as [s' rr]. simpl in Hl, Hlog. subst rr s'.
+    set (w' := mkW (map Some l) true (Some t) (wsum units l)).
+    assert (Hv' : ws_valid w' = true) by reflexivity.
+    assert (Hf' : all_some (ws_fetched w') <> None).
+    { unfold w'. simpl. rewrite all_some_map_some. discriminate. }
+    specialize (IH w' (rev (map (fun j => (j, t)) (seq 0 (length (ws_fetched w)))) ++ log) Hv' Hf').
+    destruct (ws_run (logging_pull src) units w' _ r) as [xs s'']. simpl in *.
+    rewrite IH. rewrite app_length, rev_length, !map_length, seq_length, Hlen. lia.
+Qed.
